@@ -29,7 +29,7 @@ def uids (ls : List Link) : Json := jNats (ls.map (·.uid))
 
 def vout : VOutcome → Json
   | .ok => jObj [("r", "ok")]
-  | .badJoinType l => jObj [("r", "jointype"), ("i", toJson l)]
+  | .badJoinType _ => jObj [("r", "jointype")]  -- the message names the join type object, not the link
   | .double i j => jObj [("r", "double"), ("i", toJson i), ("j", toJson j)]
   | .conflict i j => jObj [("r", "conflict"), ("i", toJson i), ("j", toJson j)]
   | .rightJoin i j => jObj [("r", "right"), ("i", toJson i), ("j", toJson j)]
